@@ -14,6 +14,7 @@ import CelloGen.Text
 import CelloProofs.Lemmas.Text
 import CelloProofs.Lemmas.TextFloat
 import CelloProofs.Lemmas.TextSeq
+import CelloProofs.Lemmas.TextFmt
 
 namespace Cello.Text
 
@@ -129,6 +130,41 @@ theorem C15_single_value (k : Kind) (pre : List Nat) (v : Val) (z : List Nat)
   · exact printItem_at_end srcCfg { kind := k, data := pre } (.shw v)
   · apply scanItem_text srcCfg (tables_of_ok _ C15_tables.1) C15_tables.2 k (.shw v) z inp pre.length rfl hv hs
     cases k <;> simp [inp, text, Input.view, List.append_assoc]
+
+/-- facts about the two conversion-character sets, decided on the sets extracted from `scan_from_with` / `print_to_with`: both end
+    a specification at `$`, `i`, `d`, `f` and not at `l` or `%` -/
+theorem C15_conv_sets : convOK srcCfg.scanConv = true ∧ convOK srcCfg.printConv = true := by
+  constructor <;> decide
+
+/-- **Format strings (T2).**  The same round trip stated on the *format string*: for every sequence `its` inside the contract whose
+    separators are non-empty, `%`-free and not adjacent, let `fmt` be the format text (`%$`, `%li`, `%ld`, `%lf`, the separators
+    verbatim).  `print_to_with(out, start, fmt, values)` — the scanner of print_to_with cutting `fmt` with its conversion set —
+    writes exactly the items' texts, and `scan_from_with(input, start, fmt, targets)` with targets of the same types — the scanner
+    of scan_from_with cutting `fmt` with *its* conversion set — stores the values written (`readBack`) and returns the position
+    the writer returned. -/
+theorem C15_format_roundtrip (k : Kind) (pre : List Nat) (its : List Item) (z : List Nat)
+    (hc : contractOK srcCfg k its z = true) (hf : fmtOK its = true)
+    (targets : List Val) (ht : sameKinds (its.filterMap Item.val?) targets = true) :
+    let fmt := its.flatMap Item.fmt
+    let text := its.flatMap (Item.text srcCfg)
+    let inp : Input := { kind := k, text := pre ++ text ++ z, cur := pre.length }
+    printFmt srcCfg { kind := k, data := pre } pre.length fmt (its.filterMap Item.val?)
+      = some ({ kind := k, data := pre ++ text }, pre.length + text.length) ∧
+    scanFmt srcCfg inp pre.length fmt targets
+      = some (its.filterMap Item.readBack, .ok (inp.adv text.length, pre.length + text.length)) := by
+  intro fmt text inp
+  have hseq := C15_sequence_roundtrip k pre its z hc
+  constructor
+  · simp only [printFmt, fmt, segment_render _ (convFacts_of_ok _ C15_conv_sets.2) its hf, itemsOf_render, Option.map_some]
+    exact congrArg some hseq.1
+  · have h1 := itemsOf_shape (its.map Item.seg) _ _ ht
+    simp only [itemsOf_render, Option.map_some] at h1
+    have h2 : scanFmt srcCfg inp pre.length fmt targets
+        = ((itemsOf (its.map Item.seg) targets).map (fun its' => its'.map Item.shape)).map (scanItems srcCfg inp pre.length) := by
+      simp only [scanFmt, fmt, segment_render _ (convFacts_of_ok _ C15_conv_sets.1) its hf, Option.map_map]
+      rfl
+    rw [h2, ← h1, Option.map_some]
+    exact congrArg some hseq.2
 
 /-- **Float, position part (T2).**  For every double and every following text that starts neither with a digit nor with `e`/`E`:
     scanf's `%lf` applied to what `%f` printed consumes exactly that text, and the value it stores does not depend on what follows. -/
